@@ -18,18 +18,48 @@ const Rule = "cases = (implementation, capacity 1-12 (thorough: up to 40), min/m
 	"sets, ChangeKey both up and down, DeleteIndex of root / leaf / middle entries, drain phases, DeleteAll; a " +
 	"state dump (heap/pos/kvs arrays, forests with parent links, marks and the nodes[] map) after ~1/3 of the ops; " +
 	"non-trivial = the history held >= 3 entries at once and, while holding >= 3, executed a successful ChangeKey or " +
-	"DeleteIndex, followed later by a successful Delete or Peek; distinct = distinct (header, op list); " +
+	"DeleteIndex, followed later by a successful Delete or Peek, and for ifibonacci additionally a ChangeKey that " +
+	"cut a node out of its tree (root count rose; tag fib-cascading-cut = it rose by >= 2, i.e. a marked parent " +
+	"was cut as well); distinct = distinct (header, op list); " +
 	"component maxdeg compares indexedFibonacci.maxDegree (floating point) with the Model's integer log_phi"
 
+// kv is an abstract entry.  k is a representative key; alt lists further key objects the Spec also admits for
+// this index (after ChangeKey(i, k) the entry holds k, or still the old key object when it compares equal to k);
+// all of them compare equal, so any representative serves for extremality / ContainsKey.  Observing the entry's
+// key (Peek, Delete, PeekIndex, DeleteIndex) must yield one of them and then fixes it.
 type kv struct {
-	k int
-	v string
+	k   int
+	v   string
+	alt []int
+}
+
+func (e kv) admits(k int) bool {
+	if e.k == k {
+		return true
+	}
+	for _, a := range e.alt {
+		if a == k {
+			return true
+		}
+	}
+	return false
 }
 
 // cmpFor: min/max are the normalised comparators (-1/0/1); mind and maxd7 return non-normalised values
 // (a-b and 7*(b-a)), which a CompareFunc is allowed to do and which the code must only use by sign.
 func cmpFor(ord string) generic.CompareFunc[int] {
 	switch ord {
+	case "half": // 2i and 2i+1 compare equal: distinct keys tie, and ChangeKey may keep the old key object
+		return func(a, b int) int {
+			x, y := half(a), half(b)
+			switch {
+			case x < y:
+				return -1
+			case x > y:
+				return 1
+			}
+			return 0
+		}
 	case "mind":
 		return func(a, b int) int { return a - b }
 	case "maxd7":
@@ -57,6 +87,14 @@ func cmpFor(ord string) generic.CompareFunc[int] {
 	}
 }
 
+// floor division by 2, as Lean's Int `/`
+func half(a int) int {
+	if a >= 0 {
+		return a / 2
+	}
+	return -((-a + 1) / 2)
+}
+
 func eqVal(a, b string) bool { return a == b }
 
 func newHeap(comp string, cap int, cmp generic.CompareFunc[int]) heap.IndexedHeap[int, string] {
@@ -72,6 +110,32 @@ func newHeap(comp string, cap int, cmp generic.CompareFunc[int]) heap.IndexedHea
 }
 
 func atoi(s string) int { n, _ := strconv.Atoi(s); return n }
+
+// fibRoots counts the trees of the root list of an indexed Fibonacci heap (from the dump hook).
+func fibRoots(h heap.IndexedHeap[int, string]) int {
+	d := heap.VerifIndexedDump(h)
+	i := strings.Index(d, "ext=")
+	if i < 0 {
+		return 0
+	}
+	depth, n := 0, 0
+	for _, ch := range d[i+4:] {
+		switch ch {
+		case '(':
+			if depth == 0 {
+				n++
+			}
+			depth++
+		case ')':
+			depth--
+		case ' ':
+			if depth == 0 {
+				return n
+			}
+		}
+	}
+	return n
+}
 
 // Exec runs one case on the real heap package and checks every outcome against a map[int]kv oracle.
 func Exec(c hx.Case) (res hx.Result) {
@@ -137,6 +201,7 @@ func Exec(c hx.Case) (res hx.Result) {
 	}
 	maxHeld := 0
 	armed, fired := false, false // non-trivial rule
+	fibCut := false              // ifibonacci: a ChangeKey cut a node out of its tree
 
 	for i, op := range c.Ops {
 		f := strings.Fields(op)
@@ -153,7 +218,7 @@ func Exec(c hx.Case) (res hx.Result) {
 					bad(i, "", "Insert(%d) = %v, want %v (in range and free)", idx, got, want)
 				}
 				if want {
-					model[idx] = kv{k, v}
+					model[idx] = kv{k: k, v: v}
 				}
 				if idx < 0 || idx >= cap {
 					tags["insert-out-of-range"] = true
@@ -163,13 +228,41 @@ func Exec(c hx.Case) (res hx.Result) {
 			case f[0] == "changekey" && len(f) == 3:
 				idx, k := atoi(f[1]), atoi(f[2])
 				old, held := model[idx]
+				rootsBefore := 0
+				if comp == "ifibonacci" && held && cmp(k, old.k) < 0 {
+					rootsBefore = fibRoots(h)
+				}
 				got := h.ChangeKey(idx, k)
+				if comp == "ifibonacci" && held && cmp(k, old.k) < 0 {
+					// a key decrease never consolidates: every new tree in the root list is a node that was cut;
+					// two or more new trees = the cut cascaded into a marked parent
+					switch d := fibRoots(h) - rootsBefore; {
+					case d >= 2:
+						tags["fib-cascading-cut"] = true
+						tags["fib-cut"] = true
+						fibCut = true
+					case d == 1:
+						tags["fib-cut"] = true
+						fibCut = true
+					}
+				}
 				out = "ok " + strconv.FormatBool(got)
 				if got != held {
 					bad(i, "", "ChangeKey(%d) = %v, index held = %v", idx, got, held)
 				}
 				if held {
-					model[idx] = kv{k, old.v}
+					ne := kv{k: k, v: old.v}
+					if cmp(k, old.k) == 0 { // Spec: the old key object(s) may be kept
+						for _, a := range append([]int{old.k}, old.alt...) {
+							if a != k {
+								ne.alt = append(ne.alt, a)
+							}
+						}
+						if len(ne.alt) > 0 {
+							tags["changekey-equal-distinct-key"] = true
+						}
+					}
+					model[idx] = ne
 					switch c := cmp(k, old.k); {
 					case c < 0:
 						tags["changekey-towards-root"] = true
@@ -202,7 +295,7 @@ func Exec(c hx.Case) (res hx.Result) {
 						bad(i, "", "Delete returned false with %d entries held", len(model))
 					case !held:
 						bad(i, "", "Delete returned index %d which is not held", idx)
-					case e.k != k || e.v != v:
+					case !e.admits(k) || e.v != v:
 						bad(i, "", "Delete returned (%d,%d,%s) but index %d holds (%d,%s)", idx, k, v, idx, e.k, e.v)
 					case !extremal(k):
 						bad(i, "", "Delete returned key %d which is not extremal", k)
@@ -230,10 +323,16 @@ func Exec(c hx.Case) (res hx.Result) {
 						bad(i, "", "Peek returned false with %d entries held", len(model))
 					case !held:
 						bad(i, "", "Peek returned index %d which is not held", idx)
-					case e.k != k || e.v != v:
+					case !e.admits(k) || e.v != v:
 						bad(i, "", "Peek returned (%d,%d,%s) but index %d holds (%d,%s)", idx, k, v, idx, e.k, e.v)
 					case !extremal(k):
 						bad(i, "", "Peek returned key %d which is not extremal", k)
+					}
+					if ok && held && e.admits(k) {
+						if k != e.k {
+							tags["kept-old-key-observed"] = true
+						}
+						model[idx] = kv{k: k, v: e.v}
 					}
 					if armed {
 						fired = true
@@ -250,7 +349,7 @@ func Exec(c hx.Case) (res hx.Result) {
 				e, held := model[idx]
 				if ok != held {
 					bad(i, "", "DeleteIndex(%d) ok=%v, index held = %v", idx, ok, held)
-				} else if held && (e.k != k || e.v != v) {
+				} else if held && (!e.admits(k) || e.v != v) {
 					bad(i, "", "DeleteIndex(%d) returned (%d,%s), held (%d,%s)", idx, k, v, e.k, e.v)
 				}
 				if held {
@@ -282,8 +381,13 @@ func Exec(c hx.Case) (res hx.Result) {
 				e, held := model[idx]
 				if ok != held {
 					bad(i, "", "PeekIndex(%d) ok=%v, index held = %v", idx, ok, held)
-				} else if held && (e.k != k || e.v != v) {
+				} else if held && (!e.admits(k) || e.v != v) {
 					bad(i, "", "PeekIndex(%d) returned (%d,%s), held (%d,%s)", idx, k, v, e.k, e.v)
+				} else if held {
+					if k != e.k {
+						tags["kept-old-key-observed"] = true
+					}
+					model[idx] = kv{k: k, v: e.v}
 				}
 			case f[0] == "containsindex" && len(f) == 2:
 				idx := atoi(f[1])
@@ -358,7 +462,7 @@ func Exec(c hx.Case) (res hx.Result) {
 	if maxHeld == cap && cap > 0 {
 		tags["filled-to-capacity"] = true
 	}
-	res.Nontrivial = maxHeld >= 3 && armed && fired
+	res.Nontrivial = maxHeld >= 3 && armed && fired && (comp != "ifibonacci" || fibCut)
 	return res
 }
 
@@ -469,6 +573,88 @@ func drain(n int) []string {
 	return append(ops, "dump")
 }
 
+// sparseDeleteAll: hold a sparse index set (high indices included), DeleteAll, then every index-based query
+// and a re-Insert for every index.
+func sparseDeleteAll(r *hx.Rand, cap int) []string {
+	var ops []string
+	var held []int
+	for i := 0; i < cap; i++ {
+		if r.Chance(2, 5) || i == cap-1 {
+			held = append(held, i)
+			ops = append(ops, fmt.Sprintf("insert %d %d %s", i, r.Intn(8), hx.Pick(r, letters)))
+		}
+	}
+	if r.Bool() {
+		ops = append(ops, "delete")
+	}
+	ops = append(ops, "dump", "deleteall", "dump", "size", "isempty", "peek")
+	for i := -1; i <= cap; i++ {
+		ops = append(ops, fmt.Sprintf("containsindex %d", i), fmt.Sprintf("peekindex %d", i))
+	}
+	ops = append(ops, "containskey 3", "containsvalue a")
+	for i := cap - 1; i >= 0; i-- {
+		switch r.Intn(3) {
+		case 0:
+			ops = append(ops, fmt.Sprintf("changekey %d 1", i), fmt.Sprintf("deleteindex %d", i))
+		case 1:
+			ops = append(ops, fmt.Sprintf("deleteindex %d", i))
+		}
+		ops = append(ops, fmt.Sprintf("insert %d %d %s", i, r.Intn(8), hx.Pick(r, letters)))
+	}
+	ops = append(ops, "dump", "size")
+	return append(ops, drain(cap)...)
+}
+
+// smallExhaustive: bounded-exhaustive families cheap enough for the quick tier.
+//   - duplicate keys: every assignment of keys {5,7} (ties everywhere) to n <= 5 entries inserted in index
+//     order, then DeleteIndex of each index in turn (in particular of the last heap position), then a drain;
+//   - cut then consolidate: capacity 3..6 filled in increasing / decreasing key order, one Delete (builds
+//     trees), then every pair drawn from {DeleteIndex i, ChangeKey i to the front} and a drain.
+func smallExhaustive(run *hx.Run, comp string) {
+	for _, ord := range []string{"min", "max", "half"} {
+		for n := 2; n <= 5; n++ {
+			for mask := 0; mask < 1<<uint(n); mask++ {
+				for del := 0; del < n; del++ {
+					var ops []string
+					for i := 0; i < n; i++ {
+						k := 5
+						if mask>>uint(i)&1 == 1 {
+							k = 7
+						}
+						ops = append(ops, fmt.Sprintf("insert %d %d %s", i, k, letters[i%5]))
+					}
+					ops = append(ops, fmt.Sprintf("deleteindex %d", del), "dump", "peek")
+					ops = append(ops, drain(n)...)
+					run.Do(comp, hx.Case{Header: fmt.Sprintf("comp=%s cap=%d ord=%s", comp, n+1, ord), Ops: ops}, Exec)
+				}
+			}
+		}
+	}
+	for cap := 3; cap <= 6; cap++ {
+		var alpha []string
+		for i := 0; i < cap; i++ {
+			alpha = append(alpha, fmt.Sprintf("deleteindex %d", i), fmt.Sprintf("changekey %d -1", i))
+		}
+		for fam := 0; fam < 2; fam++ {
+			for a := range alpha {
+				for b := range alpha {
+					var ops []string
+					for i := 0; i < cap; i++ {
+						k := i
+						if fam == 1 {
+							k = cap - i
+						}
+						ops = append(ops, fmt.Sprintf("insert %d %d %s", i, k, letters[i%5]))
+					}
+					ops = append(ops, "delete", "dump", alpha[a], "dump", alpha[b], "dump", "peek")
+					ops = append(ops, drain(cap)...)
+					run.Do(comp, hx.Case{Header: fmt.Sprintf("comp=%s cap=%d ord=min", comp, cap), Ops: ops}, Exec)
+				}
+			}
+		}
+	}
+}
+
 // exhaustive enumerates every op sequence of the given length over the alphabet.
 func exhaustive(alpha []string, n int, f func([]string)) {
 	idx := make([]int, n)
@@ -495,7 +681,7 @@ func exhaustive(alpha []string, n int, f func([]string)) {
 
 var Comps = []string{"ibinary", "ibinomial", "ifibonacci"}
 
-var Ords = []string{"min", "max", "mind", "maxd7"}
+var Ords = []string{"min", "max", "mind", "maxd7", "half"}
 
 // fullStorm: fill every slot of a heap of capacity cap (so the linked heaps hold trees of order >= 3), then
 // rounds of many ChangeKey calls in both directions with large jumps (an entry must sink / rise several
@@ -618,6 +804,11 @@ func Main(run *hx.Run) {
 				ops = append(ops, drain(cap)...)
 			}
 			run.Do(comp, hx.Case{Header: fmt.Sprintf("comp=%s cap=%d ord=%s", comp, cap, ord), Ops: ops}, Exec)
+		}
+		smallExhaustive(run, comp)
+		for k := 0; k < run.Scale(60); k++ {
+			cap := r.Range(4, 10)
+			run.Do(comp, hx.Case{Header: fmt.Sprintf("comp=%s cap=%d ord=%s", comp, cap, hx.Pick(r, Ords)), Ops: sparseDeleteAll(r, cap)}, Exec)
 		}
 		// full heaps of capacity 8..16 under a storm of ChangeKey in both directions, then drained
 		for k := 0; k < run.Scale(120); k++ {
